@@ -1176,6 +1176,7 @@ def validate_config(scen, cfg, lib, seed, n=3, tries=40):
     """Differential validation of the translator/model on concrete inputs (DESIGN §4.2)."""
     ok, bad, msgs = 0, 0, []
     exc_agree = []
+    slow = 0
     rng = _random.Random(seed)
     t = 0
     while ok + bad < n and t < tries:
@@ -1183,6 +1184,10 @@ def validate_config(scen, cfg, lib, seed, n=3, tries=40):
         sub = _random.Random(rng.random())
         e1 = run_concrete(scen, cfg, {}, 'model', lib=lib, rng=sub)
         if e1.status == 'aborted':
+            if e1.exc and 'time budget' in str(e1.exc):
+                slow += 1
+                if slow >= 3:           # exact-rational model runs of this scenario are too slow to be useful: do not burn 40 x 20 s
+                    break
             continue
         vals = dict(e1.used)
         vals.update(dict(e1.draw_log))
